@@ -267,6 +267,87 @@ def judge_archive(run, case, rec):
               "distances does not refer to the pose of each value", key="archive:distances", argv=rec["argv"])
 
 
+def judge_result_object(run, case, res, what):
+    """self-consistency of an in-memory Result (the clauses of judge_archive that need no files)"""
+    A = res.np_arrays
+    e = np.asarray(A["error_array"], dtype=float)
+    n = len(e)
+    if n:
+        want = rm.stats_definition(e)
+        mx = float(np.max(np.abs(e)))
+        for k in STAT_KEYS:
+            scale = mx * mx * n if k == "sse" else mx
+            run.counters["returned statistic == definition on returned values"] += 1
+            if not abs(res.stats[k] - want[k]) <= 1e-10 * scale + 1e-12 * abs(want[k]) + 1e-300:
+                run.violation("session:stat-%s" % k, "%s: %s=%r but the values give %r" % (what, k, res.stats[k], want[k]), case)
+                return False
+    ok = True
+    for name, tr in res.trajectories.items():
+        v = contracts.views_consistent(run, case, tr, pfx="stored trajectory views", key="session:stored-trajectory-inconsistent")
+        if "t" in v and name != list(res.trajectories)[0]:
+            off = len(v["t"]) - n
+            ok &= run.check(off in (0, 1) and "timestamps" in A and core.bits_equal(np.asarray(A["timestamps"], dtype=float), v["t"][off:]),
+                            "returned timestamps are those of the stored estimate", case,
+                            "%s: timestamps array does not match the stored estimate" % what, key="session:timestamps")
+    return ok
+
+
+def k_session(run, case):
+    """
+    Notebook-style session: the same two trajectory objects are evaluated several times with
+    main_rpe.rpe(..., support_loop=True) ("avoid overwriting if called repeatedly"), with
+    different options (projection and alignment work in place on the caller's objects).  Every
+    returned Result must be self-consistent when it is returned and must still be the same,
+    self-consistent result after the later evaluations.
+    """
+    from evo import main_rpe
+    from evo.core import metrics
+    from evo.core.trajectory import Plane
+    from evo.core.units import Unit
+    rng = run.rng(case)
+    n = int(rng.integers(6, 50))
+    ref = gen.traj_arrays(rng, n, pos_cls=["walk", "circle", "utm"][rng.integers(3)], rot_cls=["smooth", "uniform"][rng.integers(2)],
+                          stamp_cls=["small", "epoch"][rng.integers(2)])
+    for k in range(1, n):
+        if ref["t"][k] <= ref["t"][k - 1]:
+            ref["t"][k] = ref["t"][k - 1] + 1e-3
+    est = gen.perturbed_estimate(rng, ref, hostile=False)
+    stamped = bool(rng.random() < .7)
+    t_ref = gen.make_evo(ref, "se3" if rng.random() < .6 else "xyzq", stamped, flavour=gen.rand_flavour(rng))
+    t_est = gen.make_evo(est, "se3" if rng.random() < .6 else "xyzq", stamped, flavour=gen.rand_flavour(rng))
+    gen.age(rng, t_ref, p=.7), gen.age(rng, t_est, p=.7)
+    results, history = [], []
+    n_eval = int(rng.integers(2, 5))
+    for j in range(n_eval):
+        rel = ["translation_part", "rotation_angle_deg", "full_transformation", "point_distance", "rotation_part"][rng.integers(5)]
+        plane = [None, "xy", "xz", "yz"][rng.integers(4)] if j > 0 else None
+        kw = dict(delta=float(rng.integers(1, max(2, n // 3))), delta_unit=Unit.frames, all_pairs=bool(rng.random() < .3),
+                  align=bool(rng.random() < .25), correct_scale=bool(rng.random() < .2), support_loop=True,
+                  project_to_plane=Plane(plane) if plane else None)
+        history.append("%s%s%s" % (rel, " +project " + plane if plane else "", " +align" if kw["align"] or kw["correct_scale"] else ""))
+        with core.quiet():
+            out = contracts.outcome_of(main_rpe.rpe, t_ref, t_est, metrics.PoseRelation[rel], **kw)
+        if out[0] != "ok":
+            run.hit("session step refused (%s)" % type(out[1]).__name__)
+            continue
+        res = out[1]
+        judge_result_object(run, case, res, "evaluation %d (%s)" % (j, history[-1]))
+        results.append((j, res, contracts.field_snapshot(res),
+                        {k: gen.read_views(tr) for k, tr in res.trajectories.items()}))
+    run.seen(case, core.digest(ref["p"], est["p"], history), nontrivial=len(results) > 1,
+             cls=["session of %d rpe(support_loop=True) evaluations on the same objects" % n_eval] +
+                 (["session with a later projection"] if any("+project" in h for h in history[1:]) else []),
+             sample={"n": n, "history": history, "results": len(results)})
+    for j, res, snap, views in results[:-1]:
+        bad = contracts.snapshot_diff(snap, contracts.field_snapshot(res))
+        same = all(core.bits_equal(gen.read_views(tr)[k], views[name][k]) for name, tr in res.trajectories.items() for k in views[name])
+        run.check(not bad and same, "an earlier result is unchanged by later evaluations", case,
+                  "the result of evaluation %d (%s) changed after the later evaluations %s: %s" %
+                  (j, history[j], history[j + 1:], bad or "poses seen through its stored trajectories"),
+                  key="session:earlier-result-changed")
+        judge_result_object(run, case, res, "evaluation %d re-inspected at the end" % j)
+
+
 def archive_kind(tool):
     fn = C01.ape_cli if tool == "ape" else C02.rpe_cli
 
@@ -281,7 +362,7 @@ def archive_kind(tool):
     return C01.with_workdir(inner)
 
 
-KINDS = {"stats": k_stats, "units": k_units, "archive_ape": archive_kind("ape"),
+KINDS = {"stats": k_stats, "units": k_units, "session": k_session, "archive_ape": archive_kind("ape"),
          "archive_rpe": archive_kind("rpe")}
 
 
@@ -295,11 +376,13 @@ def main(run):
     for i in run.mine(100 * reps):
         k_units(run, run.case("units", i, u=(i % 100) // 10, v=i % 10))
     run.extra["ordered_unit_pairs_enumerated"] = 100
+    for i in run.mine({"quick": 250, "thorough": 4000}[run.tier]):
+        k_session(run, run.case("session", i))
     for i in run.mine({"quick": 350, "thorough": 5000}[run.tier]):
         KINDS["archive_ape"](run, run.case("archive_ape", i))
     for i in run.mine({"quick": 350, "thorough": 5000}[run.tier]):
         KINDS["archive_rpe"](run, run.case("archive_rpe", i))
-    run.need("statistic == definition", "order relations between the statistics",
+    run.need("an earlier result is unchanged by later evaluations", "statistic == definition", "order relations between the statistics",
              "rmse^2 == mean^2 + std^2", "forbidden conversion refused",
              "refused conversion leaves values and unit untouched", "values multiplied by the exact factor",
              "statistics follow the converted values",
